@@ -15,7 +15,7 @@
 (* kind "P"  : (filter-condition shape(s), table layout): every operator   *)
 (*             spelling x every value shape, malformed shapes, on the      *)
 (*             empty table, an empty file, and files with rows.            *)
-(* kind "G"  : group states (one per layout); every case is the successor  *)
+(* kind "G"  : group states (one per layout and projection); every case is the successor  *)
 (*             of its group so that TLC's workers share the work.          *)
 (* kind "T"  : one state carrying the value-level theorem                  *)
 (*             EngineMatchesReference over the whole value/expression      *)
@@ -23,7 +23,9 @@
 (***************************************************************************)
 EXTENDS FilterSel, SequencesExt, FiniteSetsExt, Json, IOUtils
 
-CONSTANTS MaxRows
+CONSTANTS MaxRows,     \* rows per file in the exhaustive single-file layouts
+          FullProj     \* TRUE: every filter with every projection; FALSE: the non-trivial projections
+                       \*       are crossed with the reduced filter set only
 
 VARIABLE c
 
@@ -114,18 +116,21 @@ PCondB == { Shape("bare", "", TRUE, "none", <<>>), Shape("pair", "gte", TRUE, "s
 \* then share the groups.
 Case(kind, grp, files, exprs, proj, cond, condB) ==
   [kind |-> kind, grp |-> grp, files |-> files, exprs |-> exprs, proj |-> proj, cond |-> cond, condB |-> condB]
-Group(grp, files) == Case("G", grp, files, <<>>, ProjAll, NoCond, NoCond)
-Groups == {Group("single", l) : l \in SingleLayouts} \cup {Group("multi", l) : l \in MultiLayouts}
-     \cup {Group("one", l) : l \in PLayouts} \cup {Group("two", l) : l \in {<<PFile1>>, <<PFile1, PFile1>>}}
-     \cup {Group("thm", <<>>)}
+Group(grp, files, proj) == Case("G", grp, files, <<>>, proj, NoCond, NoCond)
+Groups == {Group("single", l, p) : l \in SingleLayouts, p \in Projs} \cup {Group("multi", l, p) : l \in MultiLayouts, p \in Projs}
+     \cup {Group("one", l, p) : l \in PLayouts, p \in {ProjAll, <<"rid">>}}
+     \cup {Group("two", l, ProjAll) : l \in {<<PFile1>>, <<PFile1, PFile1>>}}
+     \cup {Group("thm", <<>>, ProjAll)}
+FiltersFor(grp, proj) == IF grp = "single" /\ (FullProj \/ proj = ProjAll) THEN Filters ELSE MultiFilters
 CasesOf(g) ==
-  CASE g.grp = "single" -> {Case("S", "single", g.files, e, p, NoCond, NoCond) : e \in Filters, p \in Projs}
-    [] g.grp = "multi"  -> {Case("S", "multi", g.files, e, p, NoCond, NoCond) : e \in MultiFilters, p \in Projs}
-    [] g.grp = "one"    -> {Case("P", "one", g.files, <<>>, p, s, NoCond) : s \in Shapes, p \in {ProjAll, <<"rid">>}}
-    [] g.grp = "two"    -> {Case("P", "two", g.files, <<>>, ProjAll, s, t) : s \in PCondA, t \in PCondB}
-    [] g.grp = "thm"    -> {Case("T", "thm", <<>>, <<>>, ProjAll, NoCond, NoCond)}
-SCases == UNION {CasesOf(g) : g \in {x \in Groups : x.grp \in {"single", "multi"}}}
-PCases == UNION {CasesOf(g) : g \in {x \in Groups : x.grp \in {"one", "two"}}}
+  CASE g.grp = "single" -> {Case("S", "single", g.files, e, g.proj, NoCond, NoCond) : e \in FiltersFor("single", g.proj)}
+    [] g.grp = "multi"  -> {Case("S", "multi", g.files, e, g.proj, NoCond, NoCond) : e \in MultiFilters}
+    [] g.grp = "one"    -> {Case("P", "one", g.files, <<>>, g.proj, s, NoCond) : s \in Shapes}
+    [] g.grp = "two"    -> {Case("P", "two", g.files, <<>>, g.proj, s, t) : s \in PCondA, t \in PCondB}
+    [] g.grp = "thm"    -> {Case("T", "thm", <<>>, <<>>, g.proj, NoCond, NoCond)}
+\* (operators with a parameter: TLC would evaluate a zero-arity constant definition eagerly at startup)
+NumCases(grps) == LET gs == SetToSeq({x \in Groups : x.grp \in grps})
+                  IN FoldSeq(LAMBDA g, acc : acc + Cardinality(CasesOf(g)), 0, gs)
 
 Init == c \in Groups
 Next == \/ c.kind = "G" /\ c' \in CasesOf(c)
@@ -190,18 +195,25 @@ ExprOut(e) == [col |-> e.col, op |-> e.op, lit |-> LitOut(e)]
 ExprsOut(es) == [i \in 1..Len(es) |-> ExprOut(es[i])]
 OutcomeOut(o) == IF o.raise THEN "raise" ELSE IF o.out = <<>> THEN "empty" ELSE "rows"
 FlNaN(x) == IF HasNaN(x.files) THEN {"b"} ELSE {}
-OutS(x) == [kind |-> "S", grp |-> x.grp, files |-> x.files, exprs |-> ExprsOut(x.exprs),
-            sel |-> Sel(x.files, x.exprs),
-            d1 |-> IF StatsPushdown THEN NaNRowsOfSkipped(x.files, x.exprs) ELSE {}]
+OutS(grp, files, exprs) ==
+  [kind |-> "S", grp |-> grp, files |-> files, exprs |-> ExprsOut(exprs), sel |-> Sel(files, exprs),
+   d1 |-> IF StatsPushdown THEN NaNRowsOfSkipped(files, exprs) ELSE {}]
 OutP(x) == [kind |-> "P", grp |-> x.grp, files |-> x.files, cond |-> x.cond, condB |-> x.condB,
             refMalformed |-> RefMalformedP(x), refExprs |-> ExprsOut(RefExprsP(x)),
             stage |-> StageP(x), sel |-> Sel(x.files, RefExprsP(x)),
             mScan |-> OutcomeOut(ScanTable(x.files, FltP(x), ProjAll, TRUE, FlNaN(x))),
             mBatches |-> OutcomeOut(ScanBatches(x.files, FltP(x), ProjAll, 2, FlNaN(x)))]
-Meta == [kind |-> "meta", projs |-> SetToSeq(Projs), nS |-> Cardinality(SCases), nP |-> Cardinality(PCases), nG |-> Cardinality(Groups),
-         statsPushdown |-> StatsPushdown, validateFirst |-> ValidateFirst]
+Meta == [kind |-> "meta", projs |-> SetToSeq(Projs), nS |-> NumCases({"single", "multi"}), nP |-> NumCases({"one", "two"}),
+         nG |-> Cardinality(Groups), statsPushdown |-> StatsPushdown, validateFirst |-> ValidateFirst]
+\* one record per (layout, filter) (the reference row set does not depend on the projection), built as a
+\* sequence (no set of large records has to be normalised)
+Grid(grp, layouts, filters) ==
+  LET L == SetToSeq(layouts)  F == SetToSeq(filters)  n == Len(F)
+  IN [i \in 1..(Len(L) * n) |-> OutS(grp, L[((i - 1) \div n) + 1], F[((i - 1) % n) + 1])]
+PGrid ==
+  LET G == SetToSeq({x \in Groups : x.grp \in {"one", "two"} /\ x.proj = ProjAll})
+  IN Flatten([i \in 1..Len(G) |-> LET cs == SetToSeq(CasesOf(G[i])) IN [j \in 1..Len(cs) |-> OutP(cs[j])]])
 Export ==
   ndJsonSerialize(IOEnv.VERIF_OUT,
-     <<Meta>> \o SetToSeq({OutS(x) : x \in {y \in SCases : y.proj = ProjAll}})
-             \o SetToSeq({OutP(x) : x \in {y \in PCases : y.proj = ProjAll}}))
+     <<Meta>> \o Grid("single", SingleLayouts, Filters) \o Grid("multi", MultiLayouts, MultiFilters) \o PGrid)
 =============================================================================
